@@ -92,7 +92,7 @@ func seed(parts ...string) *rng {
 
 // keys of typed maps produced by stages: mostly tame, some that need
 // escaping in JSON, in directory names or in journal file names.
-var outKeys = []string{"k0", "k1", "k2", "k3", "k4", "k0", "k1", "k2", "a.b", "x:y", "50%", "sp ace", "q\"t", "b\\s", "é", "%2E", "fork0", "nl\nx", "tab\t", ".u0123456789", "chnk1", "_", "-"}
+var outKeys = []string{"k0", "k1", "k2", "k3", "k4", "k0", "k1", "k2", "a.b", "x:y", "50%", "sp ace", "q\"t", "b\\s", "é", "%2E", "fork0", "nl\nx", "tab\t", ".u0123456789", "chnk1", "_", "-", "__MRO_MEM_GB__", "__MRO_ACCOUNT__"}
 
 // nameSuffixes: string outputs double as file names (file runs write a file
 // of that name); some need escaping in JSON - differently in different JSON
